@@ -35,7 +35,7 @@ PairCells(p) == IF p = PDC THEN {F1, L1} ELSE {F1, F2, X1, L1, L2}
 PairTrees == AllTreesOver(PairPaths, PairCells)
 PairActs == {"Checkout", "Switch", "StageAll"}
 \* the same over fewer cells (quick tier)
-PairCellsQ(p) == IF p = PDC THEN {F1} ELSE {F1, F2, X1, L1}
+PairCellsQ(p) == IF p = PDC THEN {F1} ELSE IF p = PA THEN {F1, F2, X1, L1, L2} ELSE {F1, F2, X1, L1}
 PairTreesQ == AllTreesOver(PairPaths, PairCellsQ)
 
 \* ---- edit sequences from a few trees that between them hold every kind, a directory with two
